@@ -213,6 +213,11 @@ def render_site(m, k, site, is_method):
         call = f"call_next({args})"
     elif fn == "next":
         call = f"self.f.next({args})" if is_method else f"_F.next({args})"
+        if site.get("form") == "explicit" and is_method:
+            # the receiver passed explicitly, through the class
+            call = f"type(self).f.next(self, {args})" if args else "type(self).f.next(self)"
+        elif site.get("form") == "lambda":
+            call = f"(lambda: {call})()"  # from a nested frame of the method
     elif fn == "self":
         call = f"self.f({args})" if is_method else f"_F({args})"
     else:
